@@ -28,6 +28,7 @@ using Containers = TypeList<
     std::pair<int, std::string>, std::tuple<>, std::tuple<int>,
     std::tuple<int, std::string, EnumU8>, Optional<int>, Optional<std::string>,
     Optional<NonTrivial>, Result<ErrorEnum, int>, Result<ErrorEnum, std::string>,
+    Result<ErrorU8, int>, Result<ErrorU64, std::vector<int>>,
     Variant<int, std::string, std::vector<int>>, Variant<int>,
     Variant<std::string, Inner>, Inner, Outer, Empty,
     Pairish<int, std::string>, LBufC<std::uint8_t, 8, std::uint8_t>,
